@@ -188,9 +188,18 @@ def after_run_harness():
                             [O.c17_after_run])
 
 
+def after_aborted_run_harness():
+    from env.scenario import Profile
+    from props.common import scenario_harness
+    from props import oracles as O
+    return scenario_harness("queries-after-an-aborted-nested-run-and-an-edit", Profile(
+        templates=("N12",), crit_job=False, perm="id", top="pure", timeout="always", timeout_scope="top",
+        crit_sched=False), [O.c17_after_run])
+
+
 def harnesses(tier):
     if tier == "quick":
-        return [after_run_harness(), query_harness("dag4", 4, "two", ["pure", "sched"], ["none", "remove-edge", "move-edge", "remove-job", "add-job"]),
+        return [after_run_harness(), after_aborted_run_harness(), query_harness("dag4", 4, "two", ["pure", "sched"], ["none", "remove-edge", "move-edge", "remove-job", "add-job"]),
                 iterate_harness("iterate-jobs")]
     return [query_harness("dag5", 5, "two", ["pure"], ["none", "remove-job"]),
             query_harness("dag4-all-orders", 4, "free", ["pure", "sched"],
